@@ -59,3 +59,51 @@ def spec : List Op → Str → Str → Int
     | _ => spec rest a b
 
 end Hpv.Sim
+
+namespace Hpv.Sim
+
+/-- `items()`: every stored (outer, inner, value) triple, in dict order -/
+def items (s : State) : List (Str × Str × Int) := s.flatMap (fun p => p.2.map (fun q => (p.1, q.1, q.2)))
+
+/-! ### metadata codec (`MetadataAware.metadata_to_str` / `metadata_from_str`) -/
+
+/-- Python `s.split(c)` for a single separator character -/
+def splitOn (c : Nat) : Str → List Str
+  | [] => [[]]
+  | x :: xs =>
+    if x = c then [] :: splitOn c xs
+    else match splitOn c xs with
+      | [] => [[x]]
+      | p :: ps => (x :: p) :: ps
+
+/-- Python `c.join(parts)` -/
+def joinWith (c : Nat) : List Str → Str
+  | [] => []
+  | [p] => p
+  | p :: q :: ps => p ++ c :: joinWith c (q :: ps)
+
+def semicolon : Nat := 59
+def equals : Nat := 61
+
+abbrev Meta := List (Str × Str)
+
+def hasForbidden (forb : List Nat) (s : Str) : Bool := s.any (fun c => forb.contains c)
+
+/-- `metadata_to_str`; `forb` is the set of forbidden characters as found in the source -/
+def encodeMeta (forb : List Nat) (m : Meta) : Except Err Str :=
+  if m.any (fun kv => hasForbidden forb kv.1 || hasForbidden forb kv.2) then .error .valueError
+  else .ok (joinWith semicolon (m.map (fun kv => kv.1 ++ equals :: kv.2)))
+
+def decodeItem (d : Except Err Meta) (item : Str) : Except Err Meta :=
+  match d, splitOn equals item with
+  | .ok d', [k, v] => .ok (upsert k v d')          -- `k, v = item.split('=')`; `data[k] = v`
+  | .error e, _ => .error e
+  | _, _ => .error .valueError                      -- unpacking fails
+
+/-- `metadata_from_str` -/
+def decodeMeta (s : Str) : Except Err Meta := (splitOn semicolon s).foldl decodeItem (.ok [])
+
+/-- what the reader needs from the table of forbidden characters: both separators and both line breaks -/
+def TableOk (forb : List Nat) : Bool := forb.contains semicolon && forb.contains equals && forb.contains 10 && forb.contains 13
+
+end Hpv.Sim
